@@ -846,6 +846,7 @@ impl LineBuffer {
     /// Transpose two words
     pub fn transpose_words<C: ChangeListener>(&mut self, n: RepeatCount, cl: &mut C) -> bool {
         let word_def = Word::Emacs;
+        let orig_pos = self.pos;
         self.move_to_next_word(At::AfterEnd, word_def, n);
         let w2_end = self.pos;
         self.move_to_prev_word(word_def, 1);
@@ -855,6 +856,8 @@ impl LineBuffer {
         self.move_to_next_word(At::AfterEnd, word_def, 1);
         let w1_end = self.pos;
         if w1_beg == w2_beg || w2_beg < w1_end {
+            // nothing to transpose: the cursor must not move (nobody repaints)
+            self.pos = orig_pos;
             return false;
         }
 
